@@ -16,7 +16,7 @@ pub fn run(ctx: &Ctx) -> i32 {
     let mon = Mon::new();
     let miri = ctx.mode.as_deref() == Some("miri");
     let small = ctx.mode.as_deref() == Some("small") || miri;
-    let n = if miri { 12 } else if small { 256 } else { ctx.tier.pick(200_000, 2_000_000) };
+    let n = if miri { 12 } else if small { 256 } else { ctx.tier.pick(200_000, 8_000_000) };
     let chunks = if miri { 1u64 } else if small { 4u64 } else { 64u64 };
     par_cases(ctx, &mon, "seq", chunks, |cc, rng, l| {
         for i in 0..(n / chunks) {
